@@ -82,9 +82,28 @@ pub struct Choices {
     pub record: Vec<u32>,
     pub recording: bool,
     pub drawn: u64,
+    rot: usize,
 }
 
 impl Choices {
+    /// A uniform pick among the ready arms of a `select`.  Beyond the end of a replay vector
+    /// the arms are taken in rotation instead of "always the first": with several arms ready
+    /// for ever (disconnected channels) "always the first" is an unfair schedule under which
+    /// the loop around the select never leaves, which the real (random) select cannot do.
+    pub fn choose_rot(&mut self, n: usize) -> usize {
+        if self.rng.is_none() && self.pos >= self.replay.len() && n > 1 {
+            self.drawn += 1;
+            self.pos += 1;
+            self.rot += 1;
+            let pick = self.rot % n;
+            if self.recording {
+                self.record.push(pick as u32);
+            }
+            return pick;
+        }
+        self.choose(n, None)
+    }
+
     pub fn from_seed(seed: u64) -> Self {
         Choices {
             rng: Some(Rng::new(seed)),
@@ -93,6 +112,7 @@ impl Choices {
             record: Vec::new(),
             recording: false,
             drawn: 0,
+            rot: 0,
         }
     }
     pub fn from_vec(v: Vec<u32>) -> Self {
@@ -103,6 +123,7 @@ impl Choices {
             record: Vec::new(),
             recording: false,
             drawn: 0,
+            rot: 0,
         }
     }
     /// `stay_permille`: probability (‰) of option 0 when drawing from the PRNG; `None` = uniform.
@@ -255,7 +276,7 @@ struct Task {
     kind: Kind,
     state: TState,
     parker: Arc<Parker>,
-    prio: u32,
+    prio: i64,
     stalled_until: u64,
     last_site: u64,
     runs: u64,
@@ -444,7 +465,7 @@ fn state_str(s: &TState) -> String {
 fn new_task(sim: &Arc<Sim>, name: String, kind: Kind) -> TaskId {
     let mut st = sim.lock();
     let prio = if matches!(st.cfg.mode, Mode::Pct { .. }) {
-        1000 + st.choices.choose(1000, None) as u32
+        1000 + st.choices.choose(1000, None) as i64
     } else {
         0
     };
@@ -581,6 +602,14 @@ pub fn choose(n: usize) -> usize {
     match ctx() {
         None => 0,
         Some((sim, _)) => sim.lock().choices.choose(n, None),
+    }
+}
+
+/// Pick among the ready arms of a select (see [`Choices::choose_rot`]).
+pub fn choose_arm(n: usize) -> usize {
+    match ctx() {
+        None => 0,
+        Some((sim, _)) => sim.lock().choices.choose_rot(n),
     }
 }
 
@@ -910,7 +939,9 @@ fn choose_among(st: &mut State, me: TaskId, cands: &[TaskId]) -> TaskId {
             if st.pct_change_points.contains(&step) || st.yielding {
                 // demote the current task below everything else
                 let low = st.tasks.iter().map(|t| t.prio).min().unwrap_or(1);
-                st.tasks[me].prio = low.saturating_sub(1);
+                // (signed and unbounded below: a saturating floor made every demoted task tie at
+                // the floor after ~1000 yields, and the tie-break by id then starved the others)
+                st.tasks[me].prio = low - 1;
             }
             let best = cands
                 .iter()
